@@ -6,7 +6,13 @@ P=$1; shift; [[ "$P" != -R:* ]] && P=$(readlink -f "$P")
 PROP=$1; shift
 WT=$(mktemp -d /tmp/pyvc_wt.XXXXXX)
 rmdir "$WT"
-git -C /repo worktree add -q --detach "$WT" HEAD || exit 9
+# a seeded change whose lines were later rewritten by a fix: commit names the commit it applies to in meta.json (base_commit)
+BASE=HEAD
+if [[ "$P" != -R:* ]] && [ -f "$(dirname "$P")/meta.json" ]; then
+  B=$(python3 -c "import json,sys; print(json.load(open(sys.argv[1])).get('base_commit',''))" "$(dirname "$P")/meta.json" 2>/dev/null)
+  [ -n "$B" ] && BASE=$B
+fi
+git -C /repo worktree add -q --detach "$WT" $BASE || exit 9
 if [[ "$P" == -R:* ]]; then
   git -C "$WT" show "${P#-R:}" | git -C "$WT" apply -R || { echo "cannot revert"; git -C /repo worktree remove --force "$WT"; exit 9; }
 else
